@@ -73,7 +73,7 @@ def workdir():
     """per-process scratch directory (also the cwd, since walpath contains '.')"""
     global _tmpdir
     if _tmpdir is None or not os.path.isdir(_tmpdir):
-        _tmpdir = tempfile.mkdtemp(prefix='walverif-')
+        _tmpdir = tempfile.mkdtemp(prefix='walverif-', dir=os.environ.get('WALVERIF_TMP') or None)
         os.chdir(_tmpdir)
     return _tmpdir
 
